@@ -91,7 +91,8 @@ def run_diff_case(case):
 def _draw_diff_case(draw, ci):
     from ..plain import enc
     dom = gen.Dom(ci)
-    inv = {"$inv": "intkey"}
+    from ..plain import Inv
+    inv = Inv("intkey")
     v = lambda: draw(dom.values(3))  # noqa: E731
     seq = []
     kind = ci.kind
@@ -134,11 +135,17 @@ def _gen_step(ci, dom, two):
         if two and not any(w.handles[i].res == 1 for i in roots) and draw(st.integers(0, 4)) == 0:
             return {"t": "new", "r": 1, "id": w.next_id()}
         c = draw(st.integers(0, 19))
-        if c == 18 and not w.stack and ci.backend == "json" and draw(st.booleans()):
+        if w.log and w.log[-1]["t"] == "rewrite" and draw(st.integers(0, 3)) != 0:
+            return {"t": draw(st.sampled_from(["enter_obj", "enter_cls"])), "h": draw(st.sampled_from(roots))}
+        if w.log and len(w.log) > 1 and w.log[-2]["t"] == "rewrite" and w.stack and draw(st.booleans()):
+            hi0 = draw(st.sampled_from(roots))
+            return gen.draw_read(draw, w, hi0, dom, methods=["call", "len"], refs=False)
+        if c in (17, 18) and not w.stack and ci.backend == "json":
             # between buffered sessions an outside writer replaces the file (also by an EMPTY
             # container): the next session must start from that content
             r = draw(st.sampled_from(sorted({w.handles[i].res for i in roots})))
-            doc = draw(st.one_of(st.just({} if ci.kind == "dict" else []), dom.doc(ci.kind)))
+            doc = draw(st.one_of(st.just({} if ci.kind == "dict" else []), st.just({} if ci.kind == "dict" else []),
+                                 dom.doc(ci.kind)))
             from ..plain import enc as _enc
             return {"t": "rewrite", "r": r, "doc": _enc(doc)}
         if c == 19 and w.stack and draw(st.booleans()):
